@@ -72,5 +72,19 @@ CHECKS["C06"] = {
             "program passes the checker (only the programs of each run are validated). The printed C++ (uigen/binding.rs) is tied to the IR by C16/C01's checks.",
 }
 
+CHECKS["C07"] = {
+    "text": "Partial by nature (DESIGN.md section 8). Proved: the constant interpreter terminates on every code body (C07_interp_total); the other modelled "
+            "passes carry their own totality theorems (C17_terminates, C12_grid/C12_box: no negative index, C10_unique: the name search always succeeds). "
+            "Checked against the code on every run: the model's Ok / Err / Panic prediction for tir::build* equals the implementation's on generated programs "
+            "and single-edit mutants (so a new panic in the expression layer breaks the correspondence with the program as the replay). Searched, not proved: "
+            "the repository's example and test documents, token-level and semantic mutants of them, token soup and hand-written corner cases, in all three "
+            "dynamic-binding modes under catch_unwind and a time limit (no panic, no hang, every diagnostic / label / syntax-error range inside the text on char "
+            "boundaries, output or at least one error), and the CLI on a sample (exit status 0 or 1). Three genuine panics found this way were repaired (F3, F14, F18).",
+    "technique": "Coq termination theorems for the modelled passes + differential Ok/Err/Panic prediction of the expression-layer model + mutation search over documents and the CLI",
+    "design_ref": "5 C07, 8",
+    "note": "Trusted / outside the model: tree-sitter and the CST->AST layer on error-recovery trees, codespan rendering (the CLI leg only observes the exit status), "
+            "allocation failure, stack depth. The general 'never panics' statement over the whole pipeline is not a theorem; the builder's no-panic invariant is an open T2 obligation.",
+}
+
 NOT_YET = {
 }
